@@ -235,6 +235,11 @@ func (d *Directory) RemoveTimeBucket(tbk *io.TimeBucketKey) (err error) {
 		return errors.New(io.GetCallerFileContext(0) + ": Directory called from is nil")
 	}
 
+	// Hold the root lock for the whole removal, as AddTimeBucket and GetSubDirectoryAndAddFile do:
+	// otherwise a concurrent AddTimeBucket can rescan and re-install a subtree that is being removed.
+	d.Lock()
+	defer d.Unlock()
+
 	datakeySplit := tbk.GetItems()
 
 	tree := make([]*Directory, len(datakeySplit))
@@ -242,7 +247,12 @@ func (d *Directory) RemoveTimeBucket(tbk *io.TimeBucketKey) (err error) {
 	for i := 0; i < len(datakeySplit); i++ {
 		itemName := datakeySplit[i]
 		// Descend from the current directory to find the first directory with the item name
-		if tree[i] = current.GetSubDirWithItemName(itemName); tree[i] == nil {
+		if i == 0 {
+			tree[i] = d.subDirs[itemName] // d is already locked
+		} else {
+			tree[i] = current.GetSubDirWithItemName(itemName)
+		}
+		if tree[i] == nil {
 			return errors.New("Unable to find level item: " + itemName + " in directory")
 		}
 		current = tree[i]
@@ -269,7 +279,7 @@ func (d *Directory) RemoveTimeBucket(tbk *io.TimeBucketKey) (err error) {
 		if err2 := removeDirFiles(tree[0]); err2 != nil {
 			return err2
 		}
-		d.removeSubDir(tree[0].itemName, d.directMap)
+		d.removeSubDirLocked(tree[0].itemName, d.directMap)
 	}
 	return nil
 }
@@ -707,6 +717,11 @@ func (d *Directory) addSubdir(subDir *Directory, subDirItemName string) {
 func (d *Directory) removeSubDir(subDirItemName string, directMap *sync.Map) {
 	d.Lock()
 	defer d.Unlock()
+	d.removeSubDirLocked(subDirItemName, directMap)
+}
+
+// removeSubDirLocked is removeSubDir for a caller that holds d's lock.
+func (d *Directory) removeSubDirLocked(subDirItemName string, directMap *sync.Map) {
 	if _, ok := d.subDirs[subDirItemName]; ok {
 		// Note that this is a NoOp for all but the leaf node of the tree, but it's a harmless NoOp
 		subdir := d.subDirs[subDirItemName]
